@@ -7,6 +7,7 @@ boundaries.  Oracle: the observed outcome (every return value, final balances/de
 of the sequential orders of the same calls (transfer = withdraw, then deposit), computed with the real code.
 """
 import copy
+import json
 import itertools
 
 from hypothesis import strategies as st
@@ -59,7 +60,7 @@ def _case(draw):
     op = st.one_of(*ops).map(list)
     threads = [draw(st.lists(op, min_size=1, max_size=3 if n_threads == 2 else 2)) for _ in range(n_threads)]
     schedule = draw(st.lists(st.integers(0, 5), max_size=120))
-    return {"stores": stores, "threads": threads, "schedule": schedule, "prelog": draw(st.sampled_from([0] * 28 + [998, 999, 1000, 1001]))}
+    return {"stores": stores, "threads": threads, "schedule": schedule, "prelog": draw(st.sampled_from([0] * 60 + [998, 999, 1000, 1001]))}
 
 
 def strategy(tier):
@@ -170,14 +171,30 @@ class _NotIndependent(Exception):
     pass
 
 
+_SEQ_CACHE = {}
+
+
 def _sequential_outcomes(case, ATP_Store, ET):
     """all outcomes reachable by sequential orders respecting program order (memoised search over visible state).  Branches work on
     copies of the stores; should a copy turn out to share state with its original (checked at every step), the search is redone
     with every node rebuilt from fresh stores by replaying its path through the public API only."""
-    try:
-        return _sequential_search(case, ATP_Store, ET, replay=False)
-    except (_NotIndependent, TypeError, AttributeError):
-        return _sequential_search(case, ATP_Store, ET, replay=True)
+    # the reference depends on the stores and the calls only, not on the schedule: cases that differ in their schedule share it (per worker process)
+    key = json.dumps([case["stores"], case["threads"], case.get("prelog") or 0], sort_keys=True)
+    hit = _SEQ_CACHE.get(key)
+    if hit is not None and hit[0] is ATP_Store:
+        return hit[1]
+    if not case.get("prelog"):
+        # short lives: rebuilding a node by replaying its (<= 9 step) path on fresh stores is several times cheaper than deep-copying the stores
+        res = _sequential_search(case, ATP_Store, ET, replay=True)
+    else:
+        try:
+            res = _sequential_search(case, ATP_Store, ET, replay=False)
+        except (_NotIndependent, TypeError, AttributeError):
+            res = _sequential_search(case, ATP_Store, ET, replay=True)
+    if len(_SEQ_CACHE) > 20000:
+        _SEQ_CACHE.clear()
+    _SEQ_CACHE[key] = (ATP_Store, res)
+    return res
 
 
 def _sequential_search(case, ATP_Store, ET, replay):
